@@ -25,6 +25,8 @@ type Case struct {
 	Variant  int              `json:"variant,omitempty"`    // non-period parameters scaled by variantFactor[Variant]
 	Procs    int              `json:"gomaxprocs,omitempty"` // GOMAXPROCS of the process that found it (replay sets it again)
 	Local    int              `json:"local_zone_hours,omitempty"` // the process's local time zone during the case (UTC+h); 0 = UTC
+	Pub      bool             `json:"public_fields_only,omitempty"` // scaled configurations touch exported fields only (what a user can assign after construction)
+	Repeat   int              `json:"repeat_date,omitempty"` // reports: the snapshot at this position (1-based, >= 2) carries the date of the one before it
 	Base     int              `json:"base_dir,omitempty"`   // index into baseNames: the directory the case works in is named like that
 	Pause    int              `json:"pause,omitempty"`      // seconds of simulated time the harness's consumers let pass before their 2nd, 5th and 11th receive and its producers before their 3rd and 7th send
 	Lens     []int            `json:"lens,omitempty"`
@@ -99,6 +101,7 @@ type AssetSpec struct {
 	TgtN      int    `json:"tgt_n"`
 	TgtAbsent bool   `json:"tgt_absent,omitempty"`
 	TgtEmpty  bool   `json:"tgt_empty_file,omitempty"` // file-system target: a zero-byte <name>.csv registers the asset
+	TgtLink   bool   `json:"tgt_link,omitempty"`       // file-system target: <name>.csv is a symbolic link to a file kept elsewhere
 	SrcAbsent bool   `json:"src_absent,omitempty"`
 	SrcSwap   int    `json:"src_swap,omitempty"` // k > 0: source snapshots k-1 and k change places (a late correction; the last one stays last)
 	Seed      int64  `json:"seed"`
@@ -332,6 +335,9 @@ func workerMain() int {
 		if localZoned[prop] && !freeRunning && rng.Intn(8) == 0 {
 			c.Local = []int{-8, -5, 9, 13}[rng.Intn(4)] // the machine is not set to UTC; the data still is
 		}
+		if pipeBased[prop] && rng.Intn(4) == 0 {
+			c.Pub = true
+		}
 		if fsBased[prop] && rng.Intn(8) == 0 {
 			c.Base = 1 + rng.Intn(len(baseNames)-1) // a directory whose name is not made of letters and digits only
 		}
@@ -435,6 +441,13 @@ func reportViolation(ck Check, c *Case, v Violation, dir string, st *Stats) Viol
 	if cur.Local != 0 {
 		cand := *cur
 		cand.Local = 0
+		if w, ok := same(&cand); ok {
+			cur, curV = &cand, w
+		}
+	}
+	if cur.Pub {
+		cand := *cur
+		cand.Pub = false
 		if w, ok := same(&cand); ok {
 			cur, curV = &cand, w
 		}
@@ -596,6 +609,9 @@ func envInt(k string, d int) int {
 // to and read from files and databases are whole UTC days; nothing may reinterpret them locally).
 var localZoned = map[string]bool{"C10": true, "C11": true, "C12": true}
 
+// pipeBased: the checks over indicator and strategy pipelines (scaled configurations).
+var pipeBased = map[string]bool{"C02": true, "C03": true, "C04": true, "C05": true, "C09": true, "C14": true}
+
 // fsBased: the checks whose cases work in a directory of their own; its name is part of the case.
 var fsBased = map[string]bool{"C10": true, "C11": true, "C12": true, "C13": true, "C19": true}
 
@@ -621,6 +637,11 @@ func runCase(ck Check, c *Case, st *Stats) []Violation {
 		time.Local = time.FixedZone(fmt.Sprintf("UTC%+d", c.Local), c.Local*3600)
 		defer func() { time.Local = old }()
 		st.Faults["process-local-zone-not-UTC"]++
+	}
+	scalePublicOnly = c.Pub
+	defer func() { scalePublicOnly = false }()
+	if c.Pub {
+		st.Faults["periods-assigned-through-exported-fields-only"]++
 	}
 	if c.Base > 0 && c.Base < len(baseNames) {
 		curBase = baseNames[c.Base]
